@@ -19,7 +19,9 @@ EXES = ["m_watch"]
 GEN = True
 THEOREMS = ["watch_refines", "each_forward_frame_once_in_order", "devicetype_only_from_immediate_predecessor",
             "query_paired", "query_unanswered_on_forward", "twice_good_iff_identical_repeat_in_time",
-            "fanout", "unsubscribe_local", "subscribe_local", "fanout_from", "serial_refines", "serial_each_frame_once_in_order", "run_append"]
+            "fanout", "unsubscribe_local", "subscribe_local", "fanout_from", "serial_refines", "serial_each_frame_once_in_order", "run_append",
+            "other_length_is_not_a_repeat", "keyed_registry_refines", "live_keys_distinct", "keyed_fanout",
+            "keysFresh_of_injective"]
 TRUSTED = ["hand-written model Model/BusWatch.lean of tridonic._bus_watch, the serial receivers' observed-frame "
            "path and the two subscriber registries, tied by trace validation of the real drivers in virtual time",
            "Spec/Transactions.lean: the reading of a packet history as bus transactions (the meaning of the property)",
@@ -30,7 +32,10 @@ ASSUMPTIONS = ["a gap is the time between two consecutive gateway packets (ignor
                "gateway packets are well formed (frame bytes fit the reported width); a malformed one ends the "
                "watch task with ValueError (modelled by `classify`, not by `step`)",
                "subscribers join / leave between loop iterations (a callback already scheduled by call_soon is "
-               "still delivered)"]
+               "still delivered)",
+               "keyed_registry_refines / live_keys_distinct: the key of an object handed to add_handler / del_handler "
+               "differs from the key of every other object registered at that moment (KeysFresh: CPython's id-derived "
+               "hash of objects alive at the same time)"]
 PARTIAL = ("watch_refines is proved for every history about the state machine `step`; that the real task + 200 ms "
            "timer produce exactly the wake-up sequence `events h` is validated on the generated histories (gaps on "
            "both sides of the time-out), not proved; asyncio timer/queue semantics are assumed. DistributorQueue "
@@ -695,6 +700,7 @@ async def run_join_leave(loop, kind, seq):
     objs = {}              # object number -> queue, while the harness holds it
     got = {}               # object number -> frames received, for dropped objects
     evlog, history, live_after = [], [], []
+    keys = {}              # object number -> hash(object)
     nobj = 0
 
     def drain(q):
@@ -727,9 +733,12 @@ async def run_join_leave(loop, kind, seq):
             got[n] = drain(objs.pop(n))
             history.append("q%d dropped" % n)
             del q
-        # who the parent will deliver to, in its own order (model vs code)
+        # the parent's handler table (key, child) in its own order (model vs code)
         byid = {id(q): n for n, q in objs.items()}
-        live_after.append([byid.get(id(h), -1) for h in parent._handlers.values()])
+        for n, q in objs.items():
+            keys.setdefault(n, hash(q))
+        live_after.append((",".join("%d=%d" % kv for kv in sorted(keys.items())),
+                           ",".join("%s:%d" % (key, byid.get(id(h), -1)) for key, h in parent._handlers.items())))
         f = (24, 0x00F000 + k) if k % 3 == 2 else (16, 0x0200 + k)
         data = list(f[1].to_bytes(f[0] // 8, "big"))
         ss.feed(sim.luba_rx(data) if kind == "luba" else sim.sci_rx(data))
@@ -748,6 +757,7 @@ def registry_suite(ctx, corr, ids):
     after every step: every queue holds exactly the frames observed while it was subscribed, in order."""
     slots, length = (4, 8) if ctx.thorough else (4, 7)
     seqs = join_leave_sequences(slots, length)
+    seqs.sort(key=lambda sq: sum(o in "RD" for o, _ in sq))     # plain join / leave orders first
     for kind in ("luba", "sci"):
         for seq in seqs:
             evlog, history, live_after, frames, got = sim.run(run_join_leave, kind, seq)
@@ -758,15 +768,15 @@ def registry_suite(ctx, corr, ids):
             sp = ask("specreg " + line)
             if m.strip() != ("ok " + real).strip():
                 corr.disagree(kind + "_registry", {"history": history, "events": line}, m, real)
-            # the parent's handler table after every step vs the model's subscriber list
+            # the parent's handler table after every step vs the keyed model (keys = the real hash values)
             k = 0
             for pos, e in enumerate(evlog):
                 if e.startswith("M."):
-                    want = ask("regsubs " + " ".join(evlog[:pos]))
-                    have = "ok " + ",".join(str(x) for x in live_after[k])
-                    if want.strip() != have.strip():
-                        corr.disagree(kind + "_registry", {"history": history[:2 * k + 1], "events": " ".join(evlog[:pos])},
-                                      want, have)
+                    keytab, table = live_after[k]
+                    want = ask("kreg %s %s" % (keytab or "-", " ".join(evlog[:pos])))
+                    if want.strip() != ("ok " + table).strip():
+                        corr.disagree(kind + "_handlers", {"history": history[:2 * k + 1], "events": " ".join(evlog[:pos])},
+                                      want, table)
                         break
                     k += 1
             if sp.strip() != ("ok " + real).strip():
@@ -839,7 +849,10 @@ def correspond(ctx, corr):
         "TYPE + extended command with and without something in between, 24-bit commands, events with and without "
         "instance map, unknown frames, ignored packets, the driver's own sends), every gap drawn from both sides "
         "of the time-out, 0-3 subscribers joining and leaving; every report type x status byte x origin through "
-        "the watcher; LUBA / SCI byte streams (random chunking, noise, backward frames) with 0-3 subscriber queues; "
+        "the watcher; a configuration command seen once followed by the frame of the other length with the same "
+        "numeric value (every send-twice command of the catalogue, both sides of the time-out); LUBA / SCI byte "
+        "streams (random chunking, noise, backward frames) with 0-3 subscriber queues; DistributorQueue: every "
+        "join / leave / re-add / drop sequence of length 7 over 4 subscribers with a frame after every step; "
         "non-trivial = distinct transaction kinds per suite" % sorted(round(g * 1000) for g in SHORT + LONG))
     mapper = DeviceInstanceTypeMapper()
     for a in range(0, 64, 3):
@@ -927,7 +940,10 @@ LEVEL_TEXT = ("Lean 4 theorems: for every history of gateway packets and time-ou
               "one transaction in order, the device type comes from the immediately preceding forward frame only, "
               "queries are paired with the following backward frame / silence, a send-twice command is good iff its "
               "identical repeat is the next packet inside the time-out; every subscriber registered at the time "
-              "receives every report in order and unsubscribing is local (fanout, unsubscribe_local); the serial "
+              "receives every report in order and unsubscribing is local (fanout, unsubscribe_local), also for the "
+              "handler table with explicit keys, whose live keys stay pairwise distinct (keyed_registry_refines, "
+              "live_keys_distinct, keyed_fanout); a frame of another length is never a repeat "
+              "(other_length_is_not_a_repeat); the serial "
               "receivers' observed-frame path likewise. The state machine is tied to the real tridonic._bus_watch "
               "task, LUBA/SCI receivers and both registries by trace validation in a virtual-time loop.")
 LEVEL_NOTE = ("Trusted: Lean kernel; hand-written model tied by trace validation (generated histories; gaps on both "
